@@ -63,6 +63,7 @@ func runC15Multi(t *testing.T, sc c15MultiScenario) verdict {
 			ctx, cancel := context.WithCancel(context.Background())
 			defer cancel()
 			done := make(chan error, len(rigs))
+			settled := make(chan struct{}, len(rigs))
 			for _, r := range rigs {
 				for _, d := range []*sim.Dev{r.Pwm, r.Enable, r.Rpm} {
 					d.SetT0(t0)
@@ -70,13 +71,24 @@ func runC15Multi(t *testing.T, sc c15MultiScenario) verdict {
 				r.Curve.Rebase(t0)
 				// every controller gets its own Persistence value on the shared file, as in the daemon
 				ctl := controller.NewFanController(persistence.NewPersistence(dbPath), r.Fan, sim.LoopSpec{Kind: "direct"}.Build(), 200*time.Millisecond)
-				go func() { done <- ctl.Run(ctx) }()
+				ret := make(chan struct{})
+				go func() { err := ctl.Run(ctx); close(ret); done <- err }()
+				// a fan is settled when it regulates or when its controller gave up
+				go func() {
+					select {
+					case <-r.Curve.FirstEval:
+					case <-ret:
+					}
+					settled <- struct{}{}
+				}()
 			}
-			deadline := time.After(12 * time.Hour)
-			for _, r := range rigs {
+			deadline := time.After(3 * time.Hour)
+		wait:
+			for range rigs {
 				select {
-				case <-r.Curve.FirstEval:
+				case <-settled:
 				case <-deadline:
+					break wait
 				}
 			}
 			synctest.Wait()
